@@ -4,11 +4,13 @@
   input and is non-empty, a parent encloses its children, siblings - map keys and values in
   reading order - do not overlap and appear in source order, metadata lies inside its target;
   values the reader synthesises, i.e. rewritten namespaced-map keys and merged metadata maps,
-  carry no range), the error-range half (0 <= start <= end <= length) and the line/column half
+  carry no range), the re-read half (the bytes of any sub-value's range, read on their own, give
+  that sub-value again), the error-range half (0 <= start <= end <= length) and the line/column half
   (line-feed index, binary search, position arithmetic).
 -/
 import Edn.Proofs.Lines
 import Edn.Proofs.Ranges
+import Edn.Proofs.ReRead
 
 namespace Edn.Properties.C11
 open Edn.Model Edn.Proofs Edn.Spec
@@ -25,6 +27,23 @@ theorem value_ranges (cfg : Cfg) (opts : Opts) (hreg : opts.registry = none) (in
 theorem value_spans_bytes_read (ctx : Ctx) (hreg : ctx.opts.registry = none) (f d : Nat) (dm : Bool) (st st' : St) (v : Val)
     (h : readValue ctx f d dm st = .ok v st') : RangeOK v ∧ SpanOf st v st' :=
   readValue_ranges ctx hreg f d dm st st' v h
+
+/-- re-reading: for every value occurring anywhere in the returned tree (elements, keys, values,
+    tagged operands, metadata entries) that has a source range, reading exactly the bytes of
+    that range returns the same value again - same kinds, payloads, children and relative
+    positions - up to the hash-cache cells -/
+theorem reread_gives_same_subtree (cfg : Cfg) (opts : Opts) (hreg : opts.registry = none) (input : Bytes) (v w : Val)
+    (h : (read cfg opts input).out = .value v) (hw : SubVal w v) (hs : w.hdr.synth = false) :
+    ∃ w', (read cfg opts (sliceOf input w.hdr)).out = .value w' ∧
+      eraseCache (shiftV w.hdr.e w') = eraseCache w :=
+  reread_subvalue cfg opts hreg input v w h hw hs
+
+/-- what follows a form never influences how the form itself is read -/
+theorem continuation_independent (ctx : Ctx) (hreg : ctx.opts.registry = none) (f d : Nat) (dm : Bool) (tok r : Bytes) (cl cl' : List Call) (v : Val)
+    (h : readValue ctx f d dm { rest := tok ++ r, calls := cl } = .ok v { rest := r, calls := cl' }) :
+    ∃ v', readValue ctx f d dm { rest := tok, calls := cl } = .ok v' { rest := [], calls := cl' } ∧
+      shiftV r.length v' = v :=
+  readValue_cut ctx hreg f d dm tok r cl cl' v h
 
 /-- every error range satisfies 0 <= start <= end <= length (absolute offsets), with or
     without a registry -/
